@@ -4,6 +4,7 @@ CONSTANTS
   ConnStates = {"broken"}
   MaxReplies = 1
   LeakOnSendError = TRUE
+  MatchCreation = TRUE
   RemoveOnTimeout = TRUE
 CHECK_DEADLOCK FALSE
 INVARIANT NothingLeft
